@@ -17,3 +17,23 @@ Definition run_vi_write (a : args) : args :=
 Definition run_vi_try (a : args) : args :=
   [ match vi_try_from_u32 (argn a 0) with None => [0] | Some v => [1; v] end;
     match vi_try_from_usize (argn a 0) with None => [0] | Some v => [1; v] end ].
+
+(* ---- C16 ---- *)
+From FV Require Import Codec.NV.
+Definition flat_pairs (ps : list (bytes * bytes)) : args :=
+  flat_map (fun p => [fst p; snd p]) ps.
+Definition run_nv_run (a : args) : args :=
+  let d := arg a 0 in
+  let '(ps, rest) := nv_run d in
+  [[len ps]; [nv_size_hint d]] ++ flat_pairs ps ++ [rest].
+Definition run_nv_write (a : args) : args :=
+  match nv_write (arg a 0) (arg a 1) with
+  | None => [[0]]
+  | Some e => [[1]; [nv_write_count (arg a 0) (arg a 1)]; e]
+  end.
+(* huge components, by length only: does the conversion of the two lengths succeed? *)
+Definition run_nv_write_big (a : args) : args :=
+  match vi_try_from_usize (argn a 0), vi_try_from_usize (argn a 1) with
+  | Some nl, Some vl => [[1]; [len (vi_write nl) + len (vi_write vl) + nl + vl]]
+  | _, _ => [[0]]
+  end.
